@@ -18,6 +18,44 @@ type EvalCmp struct {
 	ModelObs string
 	Agree    bool
 	Skipped  string // non-empty: not compared (rejected, timeout on both sides, invalid UTF-8 ...)
+	// components of the observables
+	RClass, RTrace, RGlobals string
+	MClass, MTrace, MGlobals string
+	Ser                      string
+}
+
+// Obs assembles the chosen observable parts ("class", "trace", "globals", "yields") of both sides.
+func (c *EvalCmp) Obs(parts ...string) (real, model string) {
+	for _, p := range parts {
+		switch p {
+		case "class":
+			real += c.RClass + " | "
+			model += c.MClass + " | "
+		case "trace":
+			real += c.RTrace + " | "
+			model += c.MTrace + " | "
+		case "globals":
+			if c.RClass != "gopanic" {
+				real += c.RGlobals + " | "
+				model += c.MGlobals + " | "
+			}
+		case "yields":
+			real += fmt.Sprintf("yields=%d | ", c.Real.Yields)
+			model += fmt.Sprintf("yields=%d | ", c.Model.Yields)
+		}
+	}
+	return real, model
+}
+
+// PrintedText decodes the concatenated text of the print effects of a wire trace.
+func PrintedText(trace string) string {
+	var b strings.Builder
+	for _, f := range strings.Fields(trace) {
+		if strings.HasPrefix(f, "s") && strings.HasSuffix(f, ")") {
+			b.WriteString(UnHex(strings.TrimSuffix(f[1:], ")")))
+		}
+	}
+	return b.String()
 }
 
 func realGlobalsWire(ev *evaluator.Evaluator) string {
@@ -105,7 +143,7 @@ func CompareEval(d *Driver, src string, o RunOpts) EvalCmp {
 		c.Skipped = "invalid-utf8"
 		return c
 	}
-	m := EvalModel(d, ser, EvalModelOpts{StopAt: o.StopAt, FailFast: o.FailFast, NoSummary: o.NoSummary, Input: o.Input, Events: o.Events, Fuel: 8 * o.MaxYield})
+	m := EvalModel(d, ser, EvalModelOpts{StopAt: o.StopAt, FailFast: o.FailFast, NoSummary: o.NoSummary, Input: o.Input, Events: o.Events, Fuel: 4 * o.MaxYield})
 	c.Model = m
 	if m.Err != "" {
 		c.ModelObs = "ERR " + m.Err
@@ -122,6 +160,9 @@ func CompareEval(d *Driver, src string, o RunOpts) EvalCmp {
 			return c
 		}
 	}
+	c.RClass, c.RTrace, c.RGlobals = res.Class, RealTrace(res), globals
+	c.MClass, c.MTrace, c.MGlobals = normClass(m.Class), m.Trace, m.Globals
+	c.Ser = ser
 	c.RealObs = res.Class + " | " + RealTrace(res) + " | " + globals + fmt.Sprintf(" | yields=%d", res.Yields)
 	c.ModelObs = normClass(m.Class) + " | " + m.Trace + " | " + m.Globals + fmt.Sprintf(" | yields=%d", m.Yields)
 	if res.Class == "gopanic" {
